@@ -1,6 +1,7 @@
 import LdkModel.Driver.Util
 import LdkModel.Model.Restart
 import LdkModel.Model.Reconstruct
+import LdkModel.Model.EventReplay
 namespace Ldk.Driver
 open Ldk.Restart
 
@@ -94,7 +95,19 @@ def showBg (w : World) : String :=
   let first := match muc with | h :: _ => s!"muc:{h}" | [] => if rg.isEmpty then "none" else s!"regen:{csv (sortNat rg)}"
   s!"{first} unblock:{if ev.contains .attemptUnblock then 1 else 0}"
 
+/-! event re-delivery (Model/EventReplay.lean) -/
+def parseEOp (s : String) : Option EOp :=
+  if s == "close" then some .close else if s == "timeout" then some .timeout else if s == "persist" then some .persist
+  else if s == "crash" then some .crash else if s.startsWith "h" then some (.handle (nat! (s.replace "h" ""))) else none
+def showQEv (e : QEv) : String := (if e.terminal then "F" else "P") ++ (if e.release then "*" else "")
+def showE (s : ESt) : String :=
+  let b (x : Bool) : String := if x then "1" else "0"
+  s!"part={b s.live.part} queue={if s.live.queue.isEmpty then "-" else ",".intercalate (s.live.queue.map showQEv)} resolved={b s.resolved} handledT={b s.handledTerminal}"
+
 /-- c10.  ops:
+      evlife (close | timeout | h<k> | persist | crash)*  → `part=0/1 queue=<P|F[*],..> resolved=0/1 handledT=0/1`
+          (Restart.erun failHtlcPushes: one single-part payment over a channel that is closed on chain; P = PaymentPathFailed, F = PaymentFailed,
+           * = carries the ReleasePaymentComplete completion action)
       reload <n> (<latestId> <unblockedId> <holder> <cp> <revokedCp> <inflight> <monId> <monHolder> <monCp> <monMinSecret>)*n
           → `err` | `ok <outcome per channel>`          (Restart.reloadNode: the startup decision)
       init <key> <baseId> <holder> <cp> <secret> | upd <key> <dHolder> <dCp> <dSecret> <blocked> | jump <key> <dHolder> <dCp> <dSecret> | release <key> |
@@ -124,6 +137,10 @@ def c10 : Drv where
         match reloadNode wl with
         | none => (sts, "err")
         | some rs => (sts, "ok " ++ " ".intercalate (rs.map showOutcome))
+      | none => (sts, "bad-op")
+    | "evlife" :: rest =>
+      match rest.mapM parseEOp with
+      | some ops => (sts, showE (erun failHtlcPushes ops))
       | none => (sts, "bad-op")
     | "recon" :: nch :: rest =>
       match parseChans rest with
